@@ -572,3 +572,22 @@ func VerifH_C01_NumFuncs() {
 }
 
 var _ = strings.Contains
+
+// VerifH_C01_ModConcrete: the remainder operator on concrete operand pairs from the
+// classes where an "equivalent" formula differs from the IEEE remainder XPath 1.0 §3.5
+// prescribes (infinite divisor, quotient beyond 53 bits, signed zeros, tiny divisors).
+// In the symbolic harness `mod` is an uninterpreted function shared by implementation
+// and model; this harness pins it to the real function on the delicate classes.
+func VerifH_C01_ModConcrete() {
+	vals := []float64{5, -5, 2, -2, 0.5, -0.3, 3, 10, 1e20, 9223372036854775808, 1e308, 5e-324,
+		math.Inf(1), math.Inf(-1), math.NaN(), 0, math.Copysign(0, -1), 1, 7.5, -7.5}
+	x := vals[vrt.Choice("a", len(vals))]
+	y := vals[vrt.Choice("b", len(vals))]
+	want := math.Mod(x, y)
+	vrt.Reach("c01.modconcrete")
+	r, ok := runTemplate("a mod b", map[string]xpath.Datum{"a": xpath.NewNumDatum(x), "b": xpath.NewNumDatum(y)})
+	if !ok {
+		return
+	}
+	expectNum(r, want, "c01.modconcrete")
+}
